@@ -871,8 +871,12 @@ fn cmd_deep(args: &[String]) -> i32 {
     let (mut idh_steps, mut idh_paths) = (0u64, 0u64);
     let cap_s: u64 = arg(args, "--cap-s").and_then(|s| s.parse().ok()).unwrap_or(if q { 45 } else { 1500 });
     let deadline = Instant::now() + Duration::from_secs(cap_s);
-    let mut judge = JudgeCfg { target, ..Default::default() };
+    // the same judge configuration and alphabet as the property's sweep (lenient links, round trip…)
+    let base_plan = plan(&prop, &tier);
+    let mut judge = base_plan.judge.clone();
+    judge.target = target;
     judge.retire_min = retire_min;
+    let deep_profile = base_plan.profile;
     if unknown == 0 {
         if let Some(&(r, _)) = deep.retirements.first() {
             let slot_sets: Vec<usize> = if q { vec![1] } else { vec![1, 2] };
@@ -889,7 +893,7 @@ fn cmd_deep(args: &[String]) -> i32 {
                 let (n, a) = if slots == 1 { (3, if q { 5 } else { 6 }) } else { (4, 5) };
                 let cfg = RunCfg {
                     n, a,
-                    profile: Profile::default(),
+                    profile: deep_profile,
                     judge: judge.clone(),
                     inits,
                     threads: threads(),
@@ -951,7 +955,7 @@ fn cmd_deep(args: &[String]) -> i32 {
         for (n, a) in if flag(args, "--no-sweep") { vec![] } else if q { vec![(3, 7), (4, 6)] } else { vec![(3, 9), (4, 8), (5, 6)] } {
             let cfg = RunCfg {
                 n, a,
-                profile: Profile::default(),
+                profile: deep_profile,
                 judge: judge.clone(),
                 inits: vec![Init::New],
                 threads: threads(),
